@@ -204,7 +204,7 @@ def main():
         j["dir"] = sdir
         env = dict(os.environ)
         env.update({"VERIF_OUT": sdir, "VERIF_TIER": tier, "VERIF_SHARD": str(j["shard"]), "VERIF_SHARDS": str(shards),
-                    "VERIF_SEED": str(seed), "VERIF_EXCLUDE": exclude,
+                    "VERIF_SEED": str(seed), "VERIF_EXCLUDE": exclude, "VERIF_CHUNK": str(j["chunk"]),
                     "VERIF_REGRESS": os.path.join(VERIF, "replays", "regress") if (j["shard"] == 0 and j["chunk"] == 0) else "",
                     "GODEBUG": cfg.get("godebug", "")})
         for k, v in cfg.get("env", {}).items():
@@ -346,6 +346,8 @@ def main():
     }
     for k, v in extra.items():
         cov.setdefault(k, v)
+    if "space_size" in extra and "enumerated" in extra:
+        cov["exhaustive"] = int(extra["enumerated"]) == int(extra["space_size"])
     ev = {
         "property_id": prop,
         "tier": tier,
